@@ -568,6 +568,18 @@ package hclsyntax
 //@ loopall invariant srcBytes: forall q *byte :: { deref(q) } existed(q) ==> deref(q) == old(deref(q))
 //@ loop 2 invariant lastTok: len(p.peeker.Tokens) >= 1 ==> p.peeker.NextIndex <= len(p.peeker.Tokens) && lastRange == p.peeker.Tokens[p.peeker.NextIndex - 1].Range
 
+// ---- extending a traversal keeps the start of the expression (unit U11g, C14) ----
+// verif:unit U11g props=C14
+// makeRelativeTraversal appends one step (.attr, .N or [literal]) to an expression: the range of the
+// result starts where the expression started - whatever the expression is - and ends where the new
+// step ends.
+// verif:func makeRelativeTraversal
+//@ nosafety
+//@ requires expr != nil
+//@ ensures scope: typeis(expr, ptr(ScopeTraversalExpr)) ==> ret == expr && unbox(expr, ptr(ScopeTraversalExpr)).SrcRange.Start == old(unbox(expr, ptr(ScopeTraversalExpr)).SrcRange.Start) && unbox(expr, ptr(ScopeTraversalExpr)).SrcRange.End == rng.End
+//@ ensures rel: typeis(expr, ptr(RelativeTraversalExpr)) ==> ret == expr && unbox(expr, ptr(RelativeTraversalExpr)).SrcRange.Start == old(unbox(expr, ptr(RelativeTraversalExpr)).SrcRange.Start) && unbox(expr, ptr(RelativeTraversalExpr)).SrcRange.End == rng.End
+//@ ensures other: !typeis(expr, ptr(ScopeTraversalExpr)) && !typeis(expr, ptr(RelativeTraversalExpr)) ==> typeis(ret, ptr(RelativeTraversalExpr)) && fresh(unbox(ret, ptr(RelativeTraversalExpr))) && unbox(ret, ptr(RelativeTraversalExpr)).Source == expr && unbox(ret, ptr(RelativeTraversalExpr)).SrcRange.End == rng.End
+
 // ---- the token list handed to the template parser (unit U11f, C15) ----
 // verif:unit U11f props=C15
 // parseTemplateParts always ends its token list with the end token; the two rewriting passes
